@@ -108,6 +108,22 @@ def run(ctx):
     for o in ctx.obs[before:]:
         o.rule = 'C12.R4'
     feasibility_gates(ctx, 'C12.R4')
+    # the molarity of the stock is computed from its stored volume: every writer of contents keeps it current
+    from .c10 import pairing as _pairing
+    _pairing(ctx, 'C12.R3')
+    # the new solution is an unlimited vessel: a capacity copied from the source or the solvent refuses requests the
+    # stock can meet
+    for c, s_, b in ff.calls:
+        if isinstance(c.func, ast.Name) and c.func.id == 'Container':
+            pn = model.func('Container.__init__').param_names()
+            bound = dict(zip(pn, c.args))
+            bound.update({k.arg: k.value for k in c.keywords if k.arg})
+            mv = bound.get('max_volume')
+            derived = mv is not None and any(isinstance(n, Param) and n.name in ('source', 'solvent') for n in deep_walk(mv))
+            ctx.ob('C12.R4', fi, s_.lineno, 'the new solution is created without a capacity taken from an input', not derived,
+                   fact=f"max_volume = {show(mv, 50) if mv is not None else 'default (unlimited)'}",
+                   why='a request the stock can meet is refused with "Exceeded maximum volume" because the source vial is small',
+                   key='capacity of the new solution')
     column_provenance(ctx, 'C12.R1')
     _tail(ctx)
     return _explanation()
